@@ -163,6 +163,7 @@ ADAPTORS = [
     (r'^c3d_frame_guards$', _keyed('label-order', 'frame_point_order')),
     (r'^B_readParam_', _scenario('param_matrix_eof', ['-O1'])),
     (r'^B_Parameter_read$', _scenario('param_char_scalar', ['-fsanitize=address'])),
+    (r'^c3d_updateHeader_rates$', _scenario('update_header_rate_ub', ['-fsanitize=float-cast-overflow', '-fno-sanitize-recover=all'])),
     (r'^c3d_updateHeader$', _scenario('header_frames_after_declare')),
     (r'^c3d_parameter$', _scenario('param_untyped_creates_group')),
     (r'^B_c3d_(point|analog)_frames$', _scenario('column_adder_partial')),
